@@ -39,36 +39,51 @@ def keep(prop, n, tags="", checks=None, confirm=""):
 
 
 def sweep(ids, tier):
+    """apply each patch to a private scratch worktree of /repo and run its checks there (VERIF_REPO); /repo is untouched"""
+    import tempfile
     rows = []
     for sid in sorted(os.listdir(SEEDED)):
         d = os.path.join(SEEDED, sid)
         if not os.path.isdir(d) or (ids and sid not in ids):
             continue
         meta = json.load(open(os.path.join(d, "meta.json")))
-        r = sh("git -C /repo status --porcelain")
-        if r.stdout.strip():
-            print("refusing: /repo working tree is not clean")
-            sys.exit(2)
-        ap = sh("git -C /repo apply %s/patch.diff" % d)
-        if ap.returncode != 0:
-            rows.append((sid, "patch no longer applies", ""))
+        wt = tempfile.mkdtemp(prefix="mutrepo_", dir="/tmp")
+        os.rmdir(wt)
+        if sh("git -C /repo worktree add -q --detach %s HEAD" % wt).returncode != 0:
+            print(sid, "cannot create scratch worktree")
             continue
         res = {}
         try:
-            for c in meta["checks"]:
-                t0 = time.time()
-                out = sh("cd /verif && timeout 3000 ./check %s %s" % (c, tier))
-                lines = [l for l in out.stdout.splitlines() if re.match(r"^(VIOLATION|OK|INCONCLUSIVE|SPURIOUS|KNOWN)", l)]
-                verdict = "caught" if any(l.startswith("VIOLATION") for l in lines) else ("inconclusive" if out.returncode == 2 else "missed")
-                res[c] = {"verdict": verdict, "exit": out.returncode, "wall_s": round(time.time() - t0, 1), "lines": [l[:300] for l in lines[:6]]}
+            ap = sh("git -C %s apply %s/patch.diff" % (wt, d))
+            if ap.returncode != 0:
+                res = {"_": {"verdict": "patch no longer applies", "lines": [ap.stdout[:200]]}}
+            else:
+                for c in meta["checks"]:
+                    t0 = time.time()
+                    out = sh("cd /verif && VERIF_REPO=%s timeout 2400 ./check %s %s" % (wt, c, tier))
+                    lines = [l for l in out.stdout.splitlines() if re.match(r"^(VIOLATION|OK|INCONCLUSIVE|SPURIOUS|KNOWN)", l)]
+                    if any(l.startswith("VIOLATION") for l in lines):
+                        verdict = "caught"
+                    elif out.returncode == 124:
+                        verdict = "timeout"
+                    elif out.returncode == 2:
+                        verdict = "inconclusive"
+                    else:
+                        verdict = "missed"
+                    res[c] = {"verdict": verdict, "exit": out.returncode, "wall_s": round(time.time() - t0, 1),
+                              "lines": [l.replace(wt, "<scratch>")[:300] for l in lines[:6]]}
         finally:
-            sh("git -C /repo checkout -- .")
-        meta["sweep"] = {"tier": tier, "results": res, "at": time.strftime("%Y-%m-%d %H:%M")}
+            sh("git -C /repo worktree remove --force %s" % wt)
+            sh("rm -rf /verif/.work/alt_%s" % re.sub(r"\W", "_", wt))
+        meta["sweep"] = {"tier": tier, "results": res, "at": time.strftime("%Y-%m-%d %H:%M"), "repo_head": sh("git -C /repo log --format=%h -1").stdout.strip()}
         json.dump(meta, open(os.path.join(d, "meta.json"), "w"), indent=1)
-        summary = ", ".join("%s:%s" % (c, v["verdict"]) for c, v in res.items())
+        summary = ", ".join("%s:%s(%ss)" % (c, v["verdict"], v.get("wall_s", "")) for c, v in res.items())
         print(sid, summary, flush=True)
-        rows.append((sid, summary, ""))
-    # restore evidence of the unchanged tree for every check that was run (evidence must describe /repo itself)
+        rows.append((sid, summary))
+    with open(os.path.join(SEEDED, "RESULTS.md"), "a") as f:
+        f.write("\n## sweep %s tier=%s\n\n" % (time.strftime("%Y-%m-%d %H:%M"), tier))
+        for sid, summary in rows:
+            f.write("- %s: %s\n" % (sid, summary))
     return rows
 
 
